@@ -39,7 +39,7 @@ var c11Run *vlib.Run // set by the harness that is running (watchdog reporting)
 // c11Place copies header+payload into guard-paged memory (the table ends at the guard page).
 func c11Place(slot int, payload []byte) *table.SDTHeader {
 	for len(c11Arenas) <= slot {
-		c11Arenas = append(c11Arenas, vlib.MustArena(0, 1<<20, false))
+		c11Arenas = append(c11Arenas, vlib.MustArena(0, 1<<21, false))
 	}
 	hl := int(unsafe.Sizeof(table.SDTHeader{}))
 	b := make([]byte, hl+len(payload))
